@@ -62,7 +62,11 @@ class UnitarySerializedEmulator(IndependentSubcircuitsBackend):
             argv = []
             # This capture the quantum arguments to the gate --- the qubit index
             qind = []
-            gatedef = gatedefs[gate.name]
+            gatedef = gatedefs.get(gate.name)
+            if gatedef is None:
+                raise JaqalError(
+                    f"Cannot emulate gate {gate.name}: it is not a native gate of this circuit"
+                )
             if gatedef.ideal_unitary is None:
                 # maybe add other checks?
                 continue
